@@ -750,6 +750,9 @@ func (fb *fnBuilder) block(kind string, ch ast.Expr, pos token.Pos, alts []strin
 		} else if fb.p.Closed[nm] {
 			e.Evid = append(e.Evid, "closed-somewhere")
 		}
+		if kind == "send" && fb.deleteBeforeSend(ch, pos) {
+			e.Evid = append(e.Evid, "delete-before-send")
+		}
 		if caps, ok := fb.p.ChanCap[nm]; ok {
 			min := 1 << 30
 			for _, c := range caps {
@@ -765,6 +768,51 @@ func (fb *fnBuilder) block(kind string, ch ast.Expr, pos token.Pos, alts []strin
 		}
 	}
 	fb.emit(e)
+}
+
+// deleteBeforeSend: ch is a local that was read out of a map (`ch, ok := X.m[k]`) and the same
+// function deletes from that map (`delete(X.m, ...)`) between that lookup and the send: the
+// registration is consumed before the value is handed over, so the channel receives at most one
+// value per registration (with capacity >= 1 the send cannot wait).
+func (fb *fnBuilder) deleteBeforeSend(ch ast.Expr, sendPos token.Pos) bool {
+	id, ok := unparen(ch).(*ast.Ident)
+	if !ok || fb.fn.Body == nil {
+		return false
+	}
+	obj := fb.info.ObjectOf(id)
+	var mapExpr string
+	var defPos token.Pos
+	ast.Inspect(fb.fn.Body, func(n ast.Node) bool {
+		as, ok := n.(*ast.AssignStmt)
+		if !ok || len(as.Rhs) != 1 || len(as.Lhs) == 0 || as.Pos() >= sendPos {
+			return true
+		}
+		l, ok := as.Lhs[0].(*ast.Ident)
+		if !ok || fb.info.ObjectOf(l) != obj {
+			return true
+		}
+		if ix, ok := unparen(as.Rhs[0]).(*ast.IndexExpr); ok {
+			if _, isMap := fb.info.TypeOf(ix.X).Underlying().(*types.Map); isMap {
+				mapExpr, defPos = fb.renderLoose(ix.X), as.Pos()
+			}
+		}
+		return true
+	})
+	if mapExpr == "" {
+		return false
+	}
+	found := false
+	ast.Inspect(fb.fn.Body, func(n ast.Node) bool {
+		c, ok := n.(*ast.CallExpr)
+		if !ok || c.Pos() <= defPos || c.Pos() >= sendPos {
+			return true
+		}
+		if isBuiltin(fb.info, c, "delete") && len(c.Args) == 2 && fb.renderLoose(c.Args[0]) == mapExpr {
+			found = true
+		}
+		return true
+	})
+	return found
 }
 
 // calleeDeferCloses: ch is a call f(...) of a library function whose body closes a channel in a
